@@ -16,10 +16,11 @@ Tie: every handler of the real controller is replayed step by step under scripte
 
 Out of the model (partial): the durable work queue, controller restart, remote workers (registry
 authentication), MaxInt64 exhaustion.  "Handed to at least one worker" is proved as: the controller never
-keeps a job in the pool while a registered worker has free demand after a dispatching handler
-(`C44_dispatch_*`), not as a temporal statement about workers that never grant demand.
+keeps a job in the pool while a registered worker has free demand (`C44_dispatch_holds`), not as a temporal
+statement about workers that never grant demand.
 -/
-import GoaktVerif.Lemmas.C44.Conserve
+import GoaktVerif.Lemmas.C44.Dispatch
+import GoaktVerif.Lemmas.C44.Notices
 
 namespace GoaktVerif.C44
 open GoaktVerif.Model.C44
@@ -75,10 +76,50 @@ theorem C44_endBinding_pending (x : WP) (n : Nat) (b : Binding) (h : x.find n = 
     (x.endBinding n).pending = b.unconfirmed.map Disp.job ++ x.pending := by
   simp [WP.endBinding, h]
 
-/-- the property, as far as the model carries it -/
-def C44_full : Prop := C44_conservation ∧ C44_exactly_once ∧ C44_requeue
+/-- the controller right after PreStart, with or without WithReliableDeliveryConfirmation -/
+def start (dc : Bool) : WP := { deliveryConfirmation := dc }
 
-theorem C44_holds : C44_full := ⟨C44_conservation_holds, C44_exactly_once_holds, C44_requeue_holds⟩
+/-- "confirmed exactly once from the producer's point of view": along every input sequence the
+    DeliveryConfirmed notices sent to the producer endpoint are exactly the confirmed jobs, in order (none when
+    the endpoint did not ask for them); with non-reused MessageIDs no MessageID is notified twice -/
+def C44_confirmed_once : Prop :=
+  ∀ (dc : Bool) (ms : List WIn),
+    runNotices (start dc) ms = noticePairs dc (runG (start dc) ms).2.2 ∧
+    (((runG (start dc) ms).2.1.map (·.id)).Nodup → ((runNotices (start dc) ms).map (·.1)).Nodup)
+
+theorem C44_confirmed_once_holds : C44_confirmed_once := by
+  intro dc ms
+  have hn := run_notices (start dc) ms (by intro m hm; cases hm)
+  refine ⟨hn, fun hnd => ?_⟩
+  have hp := (run_conserve (start dc) ms (by simp [start, NodupNames])).1
+  have hp' : (held (runG (start dc) ms).1 ++ (runG (start dc) ms).2.2).Perm (runG (start dc) ms).2.1 := by
+    simpa [held, heldB, start] using hp
+  have hall : ((held (runG (start dc) ms).1 ++ (runG (start dc) ms).2.2).map (·.id)).Nodup :=
+    (hp'.map (·.id)).nodup_iff.mpr hnd
+  have hconf : ((runG (start dc) ms).2.2.map (·.id)).Nodup := by
+    rw [List.map_append] at hall
+    exact (List.nodup_append.mp hall).2.1
+  rw [hn]
+  show ((noticePairs dc (runG (start dc) ms).2.2).map (·.1)).Nodup
+  unfold noticePairs
+  split
+  · simpa [List.map_map, Function.comp_def] using hconf
+  · simp
+
+/-- "handed to at least one worker", as far as it is not temporal: after every input sequence a job is
+    still in the pending pool only if no registered worker has free demand -/
+def C44_dispatch : Prop :=
+  ∀ (dc : Bool) (ms : List WIn), (runG (start dc) ms).1.pending ≠ [] → ∀ b ∈ (runG (start dc) ms).1.bindings, b.freeDemand = 0
+
+theorem C44_dispatch_holds : C44_dispatch := by
+  intro dc ms
+  exact run_saturated (start dc) ms (by intro h; simp [start] at h)
+
+/-- the property, as far as the model carries it -/
+def C44_full : Prop := C44_conservation ∧ C44_exactly_once ∧ C44_requeue ∧ C44_confirmed_once ∧ C44_dispatch
+
+theorem C44_holds : C44_full :=
+  ⟨C44_conservation_holds, C44_exactly_once_holds, C44_requeue_holds, C44_confirmed_once_holds, C44_dispatch_holds⟩
 
 /-! ### non-vacuity (evaluated tests on one script) -/
 
